@@ -56,3 +56,12 @@ package open_game_manager
 //@   ensures everyone-ready: all(id, indom(m.state.Participants, id) ==> m.state.Participants[id].IsReady)
 //@   ensures reports-this-setup-once: ncalls() == old(ncalls()) + 1 && callfn(old(ncalls())) == "callback:onOpenGameReady"
 //@             && callarg(old(ncalls()), 1) == m.state.GameCount && callarg(old(ncalls()), 2) == ref(m.state.Participants)
+
+//@ func NewOpenGameManager
+//@   property C09
+//@   returns r
+//@   modifies log
+//@   allocates
+//@   assume at call NewReadyGroup : constructor-returns-an-object: result0 != nil
+//@   ensures fresh-and-empty: ref(r) != 0 && typeis(r, "*open_game_manager.openGameManager") && OgmWF(r) && fresh(r) && fresh(r.state)
+//@             && r.state.GameCount == 0 && len(r.state.Participants) == 0 && r.state.Timeout == options.Timeout
